@@ -594,7 +594,8 @@ static int rtr_receive_pdu(struct rtr_socket *rtr_socket, void *pdu, const size_
 
 	// Check if the header len value is valid
 	if (rtr_pdu_check_size(pdu) == false) {
-		// TODO Restore byteorder for sending error PDU
+		// restore the byte order the header was received in, it is attached to the error PDU
+		rtr_pdu_header_to_network_byte_order(pdu);
 		error = CORRUPT_DATA;
 		goto error;
 	}
